@@ -24,7 +24,7 @@ Definition has_key {A} (k : string) (l : list (string * A)) : bool :=
   match alookup k l with Some _ => true | None => false end.
 
 (* one node of gather_symbols_from_ast; the assert_eq!(.., None) is the reject *)
-Definition gather_node (st : symtab) (n : node) : outcome symtab :=
+Definition gather_node0 (st : symtab) (n : node) : outcome symtab :=
   match n with
   | NStruct s =>
       if has_key (s_name s) (st_structs st) then Reject RDupSymbol
@@ -40,17 +40,32 @@ Definition gather_node (st : symtab) (n : node) : outcome symtab :=
   | NInclude _ => Ok st
   end.
 
-Fixpoint gather_nodes (st : symtab) (ns : list node) : outcome symtab :=
-  match ns with
-  | [] => Ok st
-  | n :: ns' => do st' <- gather_node st n; gather_nodes st' ns'
+(* the repaired table also refuses a name that the other kind of symbol already uses
+   (assert!(!taken_by_other_kind)); [one_ns] is the regenerated fact symbols_one_namespace *)
+Definition cross_kind (st : symtab) (n : node) : bool :=
+  match n with
+  | NStruct s => mem_str (s_name s) (st_consts st)
+  | NIface i => mem_str (i_name i) (st_consts st)
+  | NConst c => has_key (c_name c) (st_structs st)
+  | NInclude _ => false
   end.
 
-Fixpoint gather_files (st : symtab) (fs : list ast) : outcome symtab :=
+Definition gather_node_gen (one_ns : bool) (st : symtab) (n : node) : outcome symtab :=
+  if one_ns && cross_kind st n then Reject RDupSymbol else gather_node0 st n.
+
+Fixpoint gather_nodes_gen (one_ns : bool) (st : symtab) (ns : list node) : outcome symtab :=
+  match ns with
+  | [] => Ok st
+  | n :: ns' => do st' <- gather_node_gen one_ns st n; gather_nodes_gen one_ns st' ns'
+  end.
+
+Fixpoint gather_files_gen (one_ns : bool) (st : symtab) (fs : list ast) : outcome symtab :=
   match fs with
   | [] => Ok st
-  | a :: fs' => do st' <- gather_nodes st (a_nodes a); gather_files st' fs'
+  | a :: fs' => do st' <- gather_nodes_gen one_ns st (a_nodes a); gather_files_gen one_ns st' fs'
   end.
+
+Definition gather_files := gather_files_gen symbols_one_namespace.
 
 Definition struct_lookup (st : symtab) (n : string) := alookup n (st_structs st).
 Definition iface_lookup (st : symtab) (n : string) := alookup n (st_ifaces st).
